@@ -102,6 +102,14 @@ class TaskSetBase {
   }
 #endif
 
+  // A functor that is skipped because the set was canceled is destroyed with its closure, except for
+  // OnceFunction, which by design releases what it holds only when invoked or told that it will not be.
+  template <typename F>
+  static void releaseSkipped(F&) {}
+  static void releaseSkipped(OnceFunction& f) {
+    f.cleanupNotRun();
+  }
+
   ~TaskSetBase() {
 #if defined DISPENSO_DEBUG
     pool_.outstandingTaskSets_.fetch_sub(1, std::memory_order_release);
@@ -135,6 +143,8 @@ class TaskSetBase {
 #else
         f();
 #endif // __cpp_exceptions
+      } else {
+        releaseSkipped(f);
       }
       if (pushed) {
         detail::popThreadTaskSet();
@@ -164,6 +174,8 @@ class TaskSetBase {
 #else
         f();
 #endif // __cpp_exceptions
+      } else {
+        releaseSkipped(f);
       }
       if (pushed) {
         detail::popThreadTaskSet();
